@@ -40,6 +40,8 @@ type c19Pre struct {
 	Readable   bool
 	MtimeEq    bool
 	Nonempty   bool
+	LinkData   []int // link: cells of the regular file the symlink points to
+	LinkFile   bool  // link: the destination is such a file (else unrelated bytes)
 }
 
 type c19Job struct {
@@ -55,12 +57,12 @@ type c19Job struct {
 	Snap      string
 	Dir       string // world directory of the case
 	// results
-	Err     bool
-	Panic   bool
-	Final   string // absent dir link reg
-	FData   []int
-	Intact  bool
-	RunErr  string
+	Err    bool
+	Panic  bool
+	Final  string // absent dir link reg
+	FData  []int
+	Intact bool
+	RunErr string
 }
 
 func c19Bytes(cells []int) []byte {
@@ -188,10 +190,22 @@ func (j *c19Job) materialize(uid int) error {
 			}
 		}
 	case "link":
-		if err := os.WriteFile(filepath.Join(j.Dir, "elsewhere"), []byte("elsewhere"), 0o644); err != nil {
+		dest := filepath.Join(j.Dir, "elsewhere")
+		content := []byte("elsewhere")
+		if j.Pre.LinkFile {
+			content = c19Bytes(j.Pre.LinkData)
+		}
+		if err := os.WriteFile(dest, content, 0o644); err != nil {
 			return err
 		}
-		if err := os.Symlink(filepath.Join(j.Dir, "elsewhere"), f); err != nil {
+		mt := c19Times["file"]
+		if j.Pre.MtimeEq {
+			mt = j.nodeTime()
+		}
+		if err := os.Chtimes(dest, mt, mt); err != nil {
+			return err
+		}
+		if err := os.Symlink(dest, f); err != nil {
 			return err
 		}
 	}
@@ -230,6 +244,10 @@ func (j *c19Job) observe() error {
 	if j.Pre.Kind == "reg" && j.Pre.Hardlinked {
 		b, err := os.ReadFile(filepath.Join(j.Dir, "other"))
 		j.Intact = err == nil && bytes.Equal(b, c19Bytes(j.Pre.Data))
+	}
+	if j.Pre.Kind == "link" && j.Pre.LinkFile {
+		b, err := os.ReadFile(filepath.Join(j.Dir, "elsewhere"))
+		j.Intact = err == nil && bytes.Equal(b, c19Bytes(j.Pre.LinkData))
 	}
 	return nil
 }
@@ -290,18 +308,9 @@ func c19GenBlobs(rng *vrng, zc int) [][]int {
 	return blobs
 }
 
-func c19GenPre(rng *vrng, content []int, blobs [][]int) c19Pre {
-	cp := func(x []int) []int { return append([]int{}, x...) }
-	switch r := rng.intn(100); {
-	case r < 12:
-		return c19Pre{Kind: "absent"}
-	case r < 20:
-		return c19Pre{Kind: "dir", Nonempty: rng.bool()}
-	case r < 26:
-		return c19Pre{Kind: "link"}
-	}
-	p := c19Pre{Kind: "reg", Readable: !rng.chance(25), Hardlinked: rng.chance(15), MtimeEq: rng.chance(25)}
-	d := cp(content)
+// c19Variant derives an "old version" from the snapshot content.
+func c19Variant(rng *vrng, content []int, blobs [][]int) []int {
+	d := append([]int{}, content...)
 	switch rng.intn(9) {
 	case 0: // identical
 	case 1: // one cell changed
@@ -340,7 +349,22 @@ func c19GenPre(rng *vrng, content []int, blobs [][]int) c19Pre {
 			d[i] = 8
 		}
 	}
-	p.Data = d
+	return d
+}
+
+func c19GenPre(rng *vrng, content []int, blobs [][]int) c19Pre {
+	switch r := rng.intn(100); {
+	case r < 10:
+		return c19Pre{Kind: "absent"}
+	case r < 17:
+		return c19Pre{Kind: "dir", Nonempty: rng.bool()}
+	case r < 21:
+		return c19Pre{Kind: "link"}
+	case r < 33: // symlink to a regular file that is an old version of the snapshot file
+		return c19Pre{Kind: "link", LinkFile: true, LinkData: c19Variant(rng, content, blobs), MtimeEq: rng.chance(25)}
+	}
+	p := c19Pre{Kind: "reg", Readable: !rng.chance(25), Hardlinked: rng.chance(15), MtimeEq: rng.chance(25)}
+	p.Data = c19Variant(rng, content, blobs)
 	return p
 }
 
@@ -351,7 +375,10 @@ func (p c19Pre) coq() string {
 	case "dir":
 		return "(PDir " + coqBool(p.Nonempty) + ")"
 	case "link":
-		return "PLink"
+		if p.LinkFile {
+			return "(PLink (Some " + c19Data(p.LinkData) + "))"
+		}
+		return "(PLink None)"
 	}
 	return fmt.Sprintf("(PReg %s %s %s %s)", c19Data(p.Data), coqBool(p.Hardlinked), coqBool(p.Readable), coqBool(p.MtimeEq))
 }
@@ -441,6 +468,18 @@ func engineC19(c *vctx) error {
 			Pre:   c19Pre{Kind: "reg", Data: []int{3, 0, 0, 2, 3, 5, 5}, Readable: true, Hardlinked: true},
 			Blobs: [][]int{{3, 0, 0, 2}, {3}}})
 	}
+	// regression: symlink in the way that points to an old version / an identical copy of the file
+	// (the overwrite check must not look through it: seeded change C19-verify-follows-symlink)
+	for _, sp := range []bool{false, true} {
+		for _, ow := range []string{"always", "if-changed"} {
+			add(&c19Job{Kind: "pre-link-to-file", Root: true, Overwrite: ow, NodeNew: true, Sparse: sp,
+				Pre:   c19Pre{Kind: "link", LinkFile: true, LinkData: []int{1, 1, 1, 9, 9}},
+				Blobs: [][]int{{1, 1, 1}, {3, 3}}})
+			add(&c19Job{Kind: "pre-link-to-file", Root: sp, Overwrite: ow, NodeNew: true, Sparse: sp,
+				Pre:   c19Pre{Kind: "link", LinkFile: true, LinkData: []int{2, 0, 0, 2, 3}, MtimeEq: ow == "if-changed"},
+				Blobs: [][]int{{2, 0, 0, 2}, {3}}})
+		}
+	}
 	n := c.n(160, 2500)
 	for i := 0; i < n; i++ {
 		rng := c.rng.fork()
@@ -449,6 +488,8 @@ func engineC19(c *vctx) error {
 		j.Blobs = c19GenBlobs(rng, zc)
 		j.Pre = c19GenPre(rng, j.concat(), j.Blobs)
 		switch {
+		case j.Pre.Kind == "link" && j.Pre.LinkFile:
+			j.Kind = "pre-link-to-file"
 		case j.Pre.Kind != "reg":
 			j.Kind = "pre-" + j.Pre.Kind
 		case !j.Pre.Readable && !j.Root:
